@@ -19,8 +19,8 @@ def stopped(resp):
     return resp.get("class") == "err" and any(e["kind"] == "StoppedByWatchdog" for e in resp.get("errors", []))
 
 
-def judge_baseline(res, code, every, base, lazy):
-    case = {"code": code.hex(), "every": every}
+def judge_baseline(res, code, every, base, lazy, fl=None):
+    case = {"code": code.hex(), "every": every, "failing_lift": fl}
     mon = base["mon"]
     for site, st in mon["loops"].items():
         res.count("iterations:" + site, st["iterations"])
@@ -43,8 +43,8 @@ def judge_baseline(res, code, every, base, lazy):
     return True
 
 
-def judge_stop(res, code, every, k, T, r, seed):
-    case = {"code": code.hex(), "every": every, "stop_at": k, "total_polls": T, "rand_seed": seed}
+def judge_stop(res, code, every, k, T, r, seed, fl=None):
+    case = {"code": code.hex(), "every": every, "stop_at": k, "total_polls": T, "rand_seed": seed, "failing_lift": fl}
     cls = r.get("class")
     if cls in ("timeout", "oom", "harness_error", "crash", "panic"):
         res.inconc("driver:%s" % cls)
@@ -102,6 +102,12 @@ def shard(shard_no, nshards, seed, tier, extra):
         hseed = rng.getrandbits(48)
         cfg = {"permissive": rng.random() < 0.5}
         base_req = {"op": "analyze", "code": code.hex(), "stage": "analyze", "cfg": cfg, "rand_seed": hseed}
+        if rng.random() < 0.2:
+            # a user-defined lifting pass (LiftingPasses::add) that rejects some values: the lifting loop goes on with
+            # errors buffered, and must keep polling and keep honouring 'stop' while it does
+            base_req["failing_lift"] = {"first": rng.choice([0, 0, 1, 3]), "every": rng.choice([1, 2, 5, 1000])}
+            feats = set(feats) | {"failing-lift-pass"}
+            res.count("runs_with_a_failing_lift_pass")
         lazy = d.call(dict(base_req), timeout=300)
         base = d.call(dict(base_req, wd={"every": every}), timeout=300)
         res.evaluations += 1
@@ -112,7 +118,7 @@ def shard(shard_no, nshards, seed, tier, extra):
         T = base["mon"]["polls"]
         res.count("total_polls", T)
         res.nontriv(common.sha([code.hex(), every]))
-        if not judge_baseline(res, code, every, base, lazy):
+        if not judge_baseline(res, code, every, base, lazy, base_req.get("failing_lift")):
             continue
         # stop points: exhaustive for small T, stratified otherwise
         if T <= (60 if tier == "quick" else 2000):
@@ -122,7 +128,7 @@ def shard(shard_no, nshards, seed, tier, extra):
         for k in ks:
             res.evaluations += 1
             rr = d.call(dict(base_req, wd={"every": every, "stop_at": k}), timeout=300)
-            judge_stop(res, code, every, k, T, rr, hseed)
+            judge_stop(res, code, every, k, T, rr, hseed, base_req.get("failing_lift"))
         # a stop point beyond the end behaves like never stopping
         rr = d.call(dict(base_req, wd={"every": every, "stop_at": T + 5}), timeout=300)
         res.evaluations += 1
@@ -141,7 +147,8 @@ def run(tier, seed, t0):
         PROP, tier, seed, res, "fault_enumeration",
         "programs that spend iterations in each polled loop (long straight-line code; CALLDATACOPY / CODECOPY / "
         "EXTCODECOPY / RETURNDATACOPY and CALL* return data with constant sizes 32..3000; many values, type variables, "
-        "classes and constant slots; ground-truth layouts; loops; control-flow programs full of failing opcodes) x poll_every in {1,2,3,7,100,1000} x every poll index "
+        "classes and constant slots; ground-truth layouts; loops; control-flow programs full of failing opcodes), a fifth of them with a user-defined "
+        "lifting pass that rejects some values (errors buffered while the lifting loop goes on) x poll_every in {1,2,3,7,100,1000} x every poll index "
         "k in [0,T) when T is small, otherwise the first and last 15 polls plus random ones, plus a stop point beyond "
         "the end; same hash seed for all runs of a program. distinct = (bytecode, poll_every); each has T+1 fault points",
         t0, ["'a small bounded number of further polls' is poll_every + 1 (a copy loop that is told to stop kills its "
@@ -160,6 +167,8 @@ def replay(path):
     d = common.Driver("rel", shim=True)
     req = {"op": "analyze", "code": case["code"], "stage": "analyze", "rand_seed": case.get("rand_seed", 1),
            "wd": {"every": case["every"], "stop_at": case.get("stop_at")}}
+    if case.get("failing_lift"):
+        req["failing_lift"] = case["failing_lift"]
     r = d.call(req, timeout=300)
     d.stop()
     print(json.dumps(r)[:1000])
